@@ -308,5 +308,23 @@ func c16Aim(rng *RNG, schemas ast.Schemas) {
 		ast.NewStructField("optionalConst", ast.String(ast.Value("opt"))),
 		ast.NewStructField("nullableConst", ast.String(ast.Value("nul"), ast.Nullable()), ast.Required()),
 		ast.NewStructField("count", ast.NewScalar(ast.KindInt64, ast.Default(int64(3))), ast.Required()),
+		// the same operator several times with different parameters
+		ast.NewStructField("login", withConstraints(ast.String(), ast.TypeConstraint{Op: ast.NotEqualOp, Args: []any{""}}, ast.TypeConstraint{Op: ast.NotEqualOp, Args: []any{"root"}}, ast.TypeConstraint{Op: ast.NotEqualOp, Args: []any{"admin"}}), ast.Required()),
+		ast.NewStructField("label", withConstraints(ast.String(), ast.TypeConstraint{Op: ast.MinLengthOp, Args: []any{int64(1)}}, ast.TypeConstraint{Op: ast.MaxLengthOp, Args: []any{int64(64)}}, ast.TypeConstraint{Op: ast.MinLengthOp, Args: []any{int64(3)}})),
+		// "re-exported" names: a chain of references whose hops carry the same object name in different packages
+		ast.NewStructField("sameNameKind", ast.NewRef(a.Package, "Reexported"), ast.Required()),
 	)))
+	b.AddObject(ast.NewObject(b.Package, "Reexported", ast.String(ast.Value("re-exported"))))
+	a.AddObject(ast.NewObject(a.Package, "Reexported", ast.NewRef(b.Package, "Reexported")))
+	b.AddObject(ast.NewObject(b.Package, "SameNameStruct", ast.NewStruct(ast.NewStructField("x", ast.String()))))
+	a.AddObject(ast.NewObject(a.Package, "SameNameStruct", ast.NewRef(b.Package, "SameNameStruct")))
+	if len(schemas) > 2 {
+		c := schemas[2]
+		c.AddObject(ast.NewObject(c.Package, "SameNameStruct", ast.NewRef(a.Package, "SameNameStruct")))
+	}
+}
+
+func withConstraints(t ast.Type, cs ...ast.TypeConstraint) ast.Type {
+	t.Scalar.Constraints = cs
+	return t
 }
